@@ -791,6 +791,8 @@ OPS.update({
     'sum0': ('sum', 'val', 0, '', '({S}_Sum_sum [])'), 'product0': ('product', 'val', 0, '', '({S}_Product_product [])'),
     'from_i32': ('from_i32', 'optval', 0, 'n', '({S}_FromPrimitive_from_i32 n)'),
 })
+for _m in ('bessel_j0', 'bessel_j1', 'bessel_j2'):
+    OPS[_m] = ('bessel:' + _m, 'val', 1, '', '(%s a)' % _m)
 # programs (Hand/Prog.v) over 1..3 inputs; aux = the program as a list of integers
 OPS['prog1'] = ('prog', 'val', 1, 'L', '(eval [a] pg)')
 OPS['prog2'] = ('prog', 'val', 2, 'L', '(eval [a; b] pg)')
